@@ -837,13 +837,13 @@ const FAIL_SAFE_BUFFER_SIZE: usize = 4096;
 #[cfg(feature = "mla_verif")]
 const FAIL_SAFE_BUFFER_SIZE: usize = 8;
 
-impl<'a, R: 'a + Read> Read for CompressionLayerFailSafeReader<'a, R> {
-    /// This `read` is expected to end by failing
+impl<'a, R: 'a + Read> CompressionLayerFailSafeReader<'a, R> {
+    /// Perform one decompression pass
     ///
-    /// Even in the best configuration, when the inner layer is not broken, the
-    /// decompression will fail while reading not-compressed data such as
-    /// `CompressionLayerReader` footer
-    fn read(&mut self, buf: &mut [u8]) -> io::Result<usize> {
+    /// Returns `None` if no byte has been produced yet while progress has been
+    /// made (input fetched from the source, input consumed by the decompressor,
+    /// or end of a compressed stream reached): a new pass is then needed.
+    fn read_pass(&mut self, buf: &mut [u8]) -> Option<io::Result<usize>> {
         // Use this mem::replace trick to be able to get back the compressor
         // inner and freely move from CompressionLayerReaderState to others
         let old_state =
@@ -862,7 +862,7 @@ impl<'a, R: 'a + Read> Read for CompressionLayerFailSafeReader<'a, R> {
                     uncompressed_read: 0,
                     inner,
                 };
-                self.read(buf)
+                None
             }
             CompressionLayerFailSafeReaderState::InData {
                 mut cache,
@@ -872,116 +872,133 @@ impl<'a, R: 'a + Read> Read for CompressionLayerFailSafeReader<'a, R> {
                 mut uncompressed_read,
                 mut inner,
             } => {
-                if uncompressed_read > UNCOMPRESSED_DATA_SIZE {
-                    return Err(Error::WrongReaderState(
-                        "[Compress FailSafe Layer] Too much data read".to_string(),
-                    )
-                    .into());
-                }
+                let ret = 'pass: {
+                    if uncompressed_read > UNCOMPRESSED_DATA_SIZE {
+                        break 'pass Some(Err(Error::WrongReaderState(
+                            "[Compress FailSafe Layer] Too much data read".to_string(),
+                        )
+                        .into()));
+                    }
 
-                if read_offset == cache_filled_offset
-                    && cache_filled_offset == FAIL_SAFE_BUFFER_SIZE
-                {
-                    // Cache is full and there is no more data to read from
-                    // -> cache must be reset
-                    cache.fill(0);
-                    cache_filled_offset = 0;
-                    read_offset = 0;
-                }
+                    // Set when the inner source has no more data to provide
+                    let mut inner_eof = false;
+                    if read_offset == cache_filled_offset {
+                        // The cache has been fully consumed
+                        if cache_filled_offset == FAIL_SAFE_BUFFER_SIZE {
+                            // Cache is full and there is no more data to read from
+                            // -> cache must be reset
+                            cache.fill(0);
+                            cache_filled_offset = 0;
+                            read_offset = 0;
+                        }
 
-                // Try to fill the cache from the inner source
-                match inner.read(&mut cache[cache_filled_offset..]) {
-                    Ok(read) => {
-                        if read == 0 && read_offset == cache_filled_offset {
-                            // No more data from inner and the cache has been fully read
-                            // -> return either an error or Ok(0)
-                            if uncompressed_read > 0 {
+                        // Try to fill the cache from the inner source
+                        match inner.read(&mut cache[cache_filled_offset..]) {
+                            Ok(0) => inner_eof = true,
+                            Ok(read) => cache_filled_offset += read,
+                            Err(err) => break 'pass Some(Err(err)),
+                        }
+                    }
+
+                    // Number of byte available in the source
+                    let mut available_in = cache_filled_offset - read_offset;
+                    // IN: Offset in the source
+                    // OUT: Offset in the source after the decompression pass
+                    let mut input_offset = 0;
+                    // Available spaces in the output
+                    let mut available_out = std::cmp::min(
+                        buf.len(),
+                        (UNCOMPRESSED_DATA_SIZE - uncompressed_read) as usize,
+                    );
+                    // IN: Offset in the output
+                    // OUT: number of bytes written in the output
+                    let mut output_offset = 0;
+                    // OUT: total number of byte written for the current stream (cumulative)
+                    let mut written = 0;
+
+                    // Even without any new input, the decompressor may still
+                    // hold output not yet returned: it must always be called
+                    let result = brotli::BrotliDecompressStream(
+                        &mut available_in,
+                        &mut input_offset,
+                        &cache[read_offset..cache_filled_offset],
+                        &mut available_out,
+                        &mut output_offset,
+                        buf,
+                        &mut written,
+                        &mut state,
+                    );
+                    if let brotli::BrotliResult::ResultFailure = result {
+                        break 'pass Some(Err(io::Error::new(
+                            io::ErrorKind::InvalidData,
+                            "Invalid Data while decompressing",
+                        )));
+                    }
+
+                    // Bytes may have been read and produced
+                    // input_offset \in [0; cache_filled_offset - read_offset]
+                    read_offset += input_offset;
+                    match u32::try_from(output_offset) {
+                        Ok(output_offset) => uncompressed_read += output_offset,
+                        Err(_) => {
+                            break 'pass Some(Err(io::Error::new(
+                                io::ErrorKind::InvalidData,
+                                "Integer conversion failed",
+                            )));
+                        }
+                    }
+
+                    match result {
+                        brotli::BrotliResult::ResultSuccess => {
+                            // End of stream reached, the cache is now at the
+                            // actual start of the new block
+
+                            // Reset others
+                            state = Box::new(BrotliState::new(
+                                StandardAlloc::default(),
+                                StandardAlloc::default(),
+                                StandardAlloc::default(),
+                            ));
+                            uncompressed_read = 0;
+
+                            if output_offset > 0 {
+                                Some(Ok(output_offset))
+                            } else {
+                                // Nothing produced: go on with the next stream
+                                None
+                            }
+                        }
+                        brotli::BrotliResult::NeedsMoreInput => {
+                            if output_offset > 0 {
+                                Some(Ok(output_offset))
+                            } else if !inner_eof {
+                                // Nothing produced yet: go on with more input
+                                None
+                            } else if uncompressed_read > 0 {
                                 // Inside a stream and no more data available
-                                return Err(io::Error::new(
+                                Some(Err(io::Error::new(
                                     io::ErrorKind::UnexpectedEof,
                                     "No more data from the inner layer",
-                                ));
+                                )))
+                            } else {
+                                // No more data available but not in a stream
+                                Some(Ok(0))
                             }
-                            // No more data available but not in a stream
-                            return Ok(0);
                         }
-                        cache_filled_offset += read;
-                    }
-                    error => {
-                        if read_offset == cache_filled_offset {
-                            // No more data in the cache
-                            return error;
+                        _ => {
+                            // NeedsMoreOutput
+                            if output_offset > 0 {
+                                Some(Ok(output_offset))
+                            } else {
+                                // No room left in the current block while the
+                                // stream still has data to produce
+                                Some(Err(io::Error::new(
+                                    io::ErrorKind::InvalidData,
+                                    "Compressed block bigger than expected",
+                                )))
+                            }
                         }
-                        // There is still data in the cache to read
-                        // Will fail and return the error on the next .read()
                     }
-                }
-
-                // Number of byte available in the source
-                let mut available_in = cache_filled_offset - read_offset;
-                // IN: Offset in the source
-                // OUT: Offset in the source after the decompression pass
-                let mut input_offset = 0;
-                // Available spaces in the output
-                let mut available_out = std::cmp::min(
-                    buf.len(),
-                    (UNCOMPRESSED_DATA_SIZE - uncompressed_read) as usize,
-                );
-                // IN: Offset in the output
-                // OUT: number of bytes written in the output
-                let mut output_offset = 0;
-                // OUT: total number of byte written for the current stream (cumulative)
-                let mut written = 0;
-
-                let ret = match brotli::BrotliDecompressStream(
-                    &mut available_in,
-                    &mut input_offset,
-                    &cache[read_offset..cache_filled_offset],
-                    &mut available_out,
-                    &mut output_offset,
-                    buf,
-                    &mut written,
-                    &mut state,
-                ) {
-                    brotli::BrotliResult::ResultSuccess => {
-                        // End of stream reached
-
-                        // Rewind the cache to the actual start of the new block
-                        // input_offset \in [0; cache_filled_offset - read_offset[
-                        read_offset += input_offset;
-
-                        // Reset others
-                        state = Box::new(BrotliState::new(
-                            StandardAlloc::default(),
-                            StandardAlloc::default(),
-                            StandardAlloc::default(),
-                        ));
-                        uncompressed_read = 0;
-
-                        Ok(output_offset)
-                    }
-                    brotli::BrotliResult::NeedsMoreInput => {
-                        // Bytes may have been read and produced
-                        read_offset += input_offset;
-                        uncompressed_read += u32::try_from(output_offset).map_err(|_| {
-                            io::Error::new(io::ErrorKind::InvalidData, "Integer conversion failed")
-                        })?;
-
-                        Ok(output_offset)
-                    }
-                    brotli::BrotliResult::NeedsMoreOutput => {
-                        // Bytes may have been read and produced
-                        read_offset += input_offset;
-                        uncompressed_read += u32::try_from(output_offset).map_err(|_| {
-                            io::Error::new(io::ErrorKind::InvalidData, "Integer conversion failed")
-                        })?;
-
-                        Ok(output_offset)
-                    }
-                    brotli::BrotliResult::ResultFailure => Err(io::Error::new(
-                        io::ErrorKind::InvalidData,
-                        "Invalid Data while decompressing",
-                    )),
                 };
 
                 self.state = CompressionLayerFailSafeReaderState::InData {
@@ -995,11 +1012,33 @@ impl<'a, R: 'a + Read> Read for CompressionLayerFailSafeReader<'a, R> {
 
                 ret
             }
-            CompressionLayerFailSafeReaderState::Empty => Err(Error::WrongReaderState(
+            CompressionLayerFailSafeReaderState::Empty => Some(Err(Error::WrongReaderState(
                 "[Compression Layer] Should never happens, unless an error already occurs before"
                     .to_string(),
             )
-            .into()),
+            .into())),
+        }
+    }
+}
+
+impl<'a, R: 'a + Read> Read for CompressionLayerFailSafeReader<'a, R> {
+    /// This `read` is expected to end by failing
+    ///
+    /// Even in the best configuration, when the inner layer is not broken, the
+    /// decompression will fail while reading not-compressed data such as
+    /// `CompressionLayerReader` footer
+    ///
+    /// `Ok(0)` is returned only if no more data can be obtained: neither from
+    /// the inner layer, nor from the decompressor
+    fn read(&mut self, buf: &mut [u8]) -> io::Result<usize> {
+        if buf.is_empty() {
+            return Ok(0);
+        }
+        loop {
+            // Each pass without result makes progress on the input
+            if let Some(ret) = self.read_pass(buf) {
+                return ret;
+            }
         }
     }
 }
